@@ -39,6 +39,9 @@ type World struct {
 	// ExtraAnn: annotation keys that are ABSENT from the Ingresses of the fixture (they cannot be present in a valid
 	// base: snippets, App Protect, internal routes) but must still be attacked: the leaf is created by the mutation
 	ExtraAnn []string
+	// Secondary: the fixture repeats another one under a different context selector (path-regex value, ...); in the
+	// quick tier its leaves get the core payloads only
+	Secondary bool
 	Objs     []Obj // application order: policies first, then VSR after VS etc. is handled by the runner
 }
 
@@ -357,8 +360,8 @@ func backend(svc string, port int32, named string) networking.IngressBackend {
 	return b
 }
 
-func ingWorld(plus bool, variant string) *World {
-	w := &World{Plus: plus, HTTP2: true}
+func ingWorld(plus bool, variant string, regex string) *World {
+	w := &World{Plus: plus, HTTP2: true, Secondary: variant == "a" && regex != ""}
 	clusterState(w)
 	prefix, exact, impl := networking.PathTypePrefix, networking.PathTypeExact, networking.PathTypeImplementationSpecific
 	ing := &networking.Ingress{ObjectMeta: meta("cafe-ing")}
@@ -431,7 +434,6 @@ func ingWorld(plus bool, variant string) *World {
 			a["nginx.org/lb-method"] = "least_conn" // slow start and sticky need a non-hash method
 		}
 	case "b": // the annotations excluded by variant a: regex paths, jwt (Plus), no-delay, cluster ip, server tokens string (Plus)
-		a["nginx.org/path-regex"] = "case_insensitive"
 		a["nginx.org/use-cluster-ip"] = "true"
 		a["nginx.org/limit-req-rate"] = "200r/m"
 		a["nginx.org/limit-req-no-delay"] = "true"
@@ -446,10 +448,10 @@ func ingWorld(plus bool, variant string) *World {
 			a["nginx.com/jwt-token"] = "$cookie_auth_token"
 			a["nginx.com/jwt-login-url"] = "https://login.example.com/a"
 		}
-	case "exact":
-		a["nginx.org/path-regex"] = "exact"
-	case "cs":
-		a["nginx.org/path-regex"] = "case_sensitive"
+	}
+	if regex != "" {
+		// context selector: the value of nginx.org/path-regex changes how every location path is rendered
+		a["nginx.org/path-regex"] = regex
 	}
 	ing.Annotations = a
 	if variant == "a" {
@@ -485,7 +487,9 @@ func mergeableWorld(plus bool) *World {
 		IngressRuleValue: networking.IngressRuleValue{HTTP: &networking.HTTPIngressRuleValue{Paths: []networking.HTTPIngressPath{
 			{Path: "/m1", PathType: &prefix, Backend: backend("svc1", 80, "")}}}}}}}
 	m2 := &networking.Ingress{ObjectMeta: meta("minion2")}
-	m2.Annotations = map[string]string{"nginx.org/mergeable-ingress-type": "minion", "nginx.org/websocket-services": "svc2", "nginx.org/proxy-buffers": "2 4k"}
+	m2.Annotations = map[string]string{"nginx.org/mergeable-ingress-type": "minion", "nginx.org/websocket-services": "svc2", "nginx.org/proxy-buffers": "2 4k",
+		"nginx.org/rewrites": "serviceName=svc2 rewrite=/m2r/;serviceName=svc3 rewrite=/", "nginx.org/path-regex": "exact", "nginx.org/lb-method": "least_conn",
+		"nginx.org/limit-req-rate": "3r/s", "nginx.org/limit-req-key": "${request_uri}"}
 	if plus {
 		m2.Annotations["nginx.com/jwt-key"] = "jwk"
 		m2.Annotations["nginx.com/jwt-realm"] = "Minion"
@@ -512,9 +516,123 @@ var fixtures = []Fixture{
 	{"ts-tcp", func(p bool) *World { return tsWorld(p, "tcp") }},
 	{"ts-udp", func(p bool) *World { return tsWorld(p, "udp") }},
 	{"ts-tlsp", func(p bool) *World { return tsWorld(p, "tlsp") }},
-	{"ing-a", func(p bool) *World { return ingWorld(p, "a") }},
-	{"ing-b", func(p bool) *World { return ingWorld(p, "b") }},
-	{"ing-exact", func(p bool) *World { return ingWorld(p, "exact") }},
-	{"ing-cs", func(p bool) *World { return ingWorld(p, "cs") }},
+	{"ing-a", func(p bool) *World { return ingWorld(p, "a", "") }},
+	{"ing-b", func(p bool) *World { return ingWorld(p, "b", "case_insensitive") }},
+	{"ing-a-exact", func(p bool) *World { return ingWorld(p, "a", "exact") }},
+	{"ing-a-cs", func(p bool) *World { return ingWorld(p, "a", "case_sensitive") }},
+	{"ing-a-ci", func(p bool) *World { return ingWorld(p, "a", "case_insensitive") }},
 	{"mergeable", mergeableWorld},
+	{"vs-cross-prefix", func(p bool) *World { return vsCrossWorld(p, "prefix") }},
+	{"vs-cross-regex", func(p bool) *World { return vsCrossWorld(p, "regex") }},
+	{"vs-cross-iregex", func(p bool) *World { return vsCrossWorld(p, "iregex") }},
+	{"vs-cross-exact", func(p bool) *World { return vsCrossWorld(p, "exact") }},
+}
+
+
+// vsCrossWorld crosses the string leaves of a route action with the CONTEXT SELECTORS that decide which
+// validator and which rendering site apply to them: the kind of the route path (prefix /p, regular
+// expression ~ and ~*, exact match =), the kind of location (top-level action, splits, matches, splits inside
+// matches: the last three are internal locations), the type of the upstream (plain, TLS, gRPC), and
+// VirtualServer route versus VirtualServerRoute subroute (one VirtualServerRoute per path kind, because a
+// regular-expression or exact route may only delegate to a single subroute with the same path).
+func vsCrossWorld(plus bool, only string) *World {
+	w := &World{Plus: plus, HTTP2: true, Secondary: true} // the fields get their full payload set in vs-rich
+	clusterState(w)
+	ups := []conf_v1.Upstream{
+		{Name: "u-http", Service: "tea-svc", Port: 80},
+		{Name: "u-tls", Service: "coffee-svc", Port: 80, TLS: conf_v1.UpstreamTLS{Enable: true}},
+		{Name: "u-grpc", Service: "grpc-svc", Port: 8080, Type: "grpc"},
+	}
+	proxy := func(up string) *conf_v1.Action {
+		return &conf_v1.Action{Proxy: &conf_v1.ActionProxy{Upstream: up, RewritePath: "/rw",
+			RequestHeaders:  &conf_v1.ProxyRequestHeaders{Set: []conf_v1.Header{{Name: "X-Req", Value: "req ${http_x_user}"}}},
+			ResponseHeaders: &conf_v1.ProxyResponseHeaders{Hide: []string{"x-hide"}, Pass: []string{"Server"}, Ignore: []string{"Expires"}, Add: []conf_v1.AddHeader{{Header: conf_v1.Header{Name: "X-Add", Value: "add"}, Always: true}}}}}
+	}
+	redirect := func() *conf_v1.Action {
+		return &conf_v1.Action{Redirect: &conf_v1.ActionRedirect{URL: "${scheme}://${host}/new", Code: 301}}
+	}
+	ret := func() *conf_v1.Action {
+		return &conf_v1.Action{Return: &conf_v1.ActionReturn{Code: 200, Type: "text/plain", Body: "body ${request_uri}", Headers: []conf_v1.Header{{Name: "x-ret", Value: "ret"}}}}
+	}
+	pass := func(up string) *conf_v1.Action { return &conf_v1.Action{Pass: up} }
+	splits := func(up string) []conf_v1.Split {
+		return []conf_v1.Split{{Weight: 40, Action: pass(up)}, {Weight: 30, Action: proxy("u-tls")}, {Weight: 20, Action: redirect()}, {Weight: 10, Action: ret()}}
+	}
+	cond := func(v string) []conf_v1.Condition { return []conf_v1.Condition{{Header: "x-sel", Value: v}} }
+	matches := func(up string) []conf_v1.Match {
+		return []conf_v1.Match{
+			{Conditions: cond("a"), Action: proxy(up)},
+			{Conditions: cond("b"), Action: redirect()},
+			{Conditions: cond("c"), Action: ret()},
+			{Conditions: cond("d"), Splits: []conf_v1.Split{{Weight: 50, Action: pass(up)}, {Weight: 50, Action: proxy(up)}}},
+		}
+	}
+	// path of kind k with a distinguishing tail
+	mk := func(k, tail string) string {
+		switch k {
+		case "regex":
+			return "~ ^/" + tail
+		case "iregex":
+			return "~* ^/" + tail
+		case "exact":
+			return "=/" + tail
+		}
+		return "/" + tail
+	}
+	// one world per path kind: small files keep every rendering (and its evaluation in Rocq) cheap
+	kinds := []string{only}
+	var routes []conf_v1.Route
+	for _, k := range kinds {
+		routes = append(routes,
+			conf_v1.Route{Path: mk(k, k+"-pass"), Action: pass("u-http")},
+			conf_v1.Route{Path: mk(k, k+"-proxy"), Action: proxy("u-http")},
+			conf_v1.Route{Path: mk(k, k+"-proxy-tls"), Action: proxy("u-tls")},
+			conf_v1.Route{Path: mk(k, k+"-proxy-grpc"), Action: proxy("u-grpc")},
+			conf_v1.Route{Path: mk(k, k+"-redirect"), Action: redirect()},
+			conf_v1.Route{Path: mk(k, k+"-return"), Action: ret()},
+			conf_v1.Route{Path: mk(k, k+"-splits"), Splits: splits("u-http")},
+			conf_v1.Route{Path: mk(k, k+"-matches"), Matches: matches("u-http"), Action: proxy("u-http")},
+			conf_v1.Route{Path: mk(k, k+"-vsr"), Route: ns + "/cross-" + k},
+		)
+	}
+	vsrKinds := []string{only}
+	switch only {
+	case "exact":
+		routes = append(routes, conf_v1.Route{Path: mk("exact", "exact-vsr2"), Route: ns + "/cross-exact2"})
+		vsrKinds = append(vsrKinds, "exact2")
+	case "regex":
+		routes = append(routes, conf_v1.Route{Path: mk("regex", "regex-vsr2"), Route: ns + "/cross-regex2"})
+		vsrKinds = append(vsrKinds, "regex2")
+	}
+	vs := &conf_v1.VirtualServer{ObjectMeta: meta("cross")}
+	vs.Spec = conf_v1.VirtualServerSpec{IngressClass: "nginx", Host: "cross.example.com", TLS: &conf_v1.TLS{Secret: "tls"}, Upstreams: ups, Routes: routes}
+	w.Objs = append(w.Objs, Obj{Kind: "vs", Name: "cross", Val: vs})
+	for _, k := range vsrKinds {
+		vsr := &conf_v1.VirtualServerRoute{ObjectMeta: meta("cross-" + k)}
+		vsr.Spec = conf_v1.VirtualServerRouteSpec{IngressClass: "nginx", Host: "cross.example.com",
+			Upstreams: []conf_v1.Upstream{{Name: "u-http", Service: "vsr-svc", Port: 80}, {Name: "u-tls", Service: "svc1", Port: 80, TLS: conf_v1.UpstreamTLS{Enable: true}}}}
+		p := mk(k, k+"-vsr")
+		switch k {
+		case "exact2":
+			p = mk("exact", "exact-vsr2")
+			vsr.Spec.Subroutes = []conf_v1.Route{{Path: p, Matches: matches("u-tls"), Action: proxy("u-http")}}
+		case "regex2":
+			p = mk("regex", "regex-vsr2")
+			vsr.Spec.Subroutes = []conf_v1.Route{{Path: p, Action: proxy("u-tls")}}
+		case "prefix":
+			vsr.Spec.Subroutes = []conf_v1.Route{
+				{Path: p + "/proxy", Action: proxy("u-http")},
+				{Path: p + "/splits", Splits: splits("u-http")},
+				{Path: p + "/matches", Matches: matches("u-http"), Action: proxy("u-tls")},
+			}
+		case "regex":
+			vsr.Spec.Subroutes = []conf_v1.Route{{Path: p, Matches: matches("u-http"), Action: proxy("u-http")}}
+		case "iregex":
+			vsr.Spec.Subroutes = []conf_v1.Route{{Path: p, Splits: splits("u-http")}}
+		case "exact":
+			vsr.Spec.Subroutes = []conf_v1.Route{{Path: p, Action: proxy("u-http")}}
+		}
+		w.Objs = append(w.Objs, Obj{Kind: "vsr", Name: vsr.Name, Val: vsr})
+	}
+	return w
 }
